@@ -20,6 +20,8 @@ From MV Require Import Doc.TopProofs.
 From MV Require Import Doc.DecoProofs.
 From MV Require Import Doc.Transforms.
 From MV Require Import Doc.TransProofs.
+From MV Require Import Doc.Api.
+From MV Require Import Doc.IdsProofs.
 Import ListNotations.
 
 Definition static_forest (B : backend) (C : cfg) (OR : oracles) (ts : list tok) : bool :=
@@ -214,21 +216,8 @@ Proof.
   intro H. specialize (H v_python [10; 120] [([], [120])] eq_refl). vm_compute in H. discriminate H.
 Qed.
 
-(* ids: an id generated by docutils' set_id is not registered before; a node's preset ids are taken as they are *)
-Fixpoint all_ids (n : node) : list str :=
-  match n with
-  | Text _ _ => []
-  | Elem _ _ a cs => (match assoc a_ids a with Some l => l | None => [] end) ++ flat_map all_ids cs
-  end.
-
-Fixpoint nodup_strs (l : list str) : bool :=
-  match l with
-  | [] => true
-  | x :: r => negb (mem_str x r) && nodup_strs r
-  end.
-
-Definition ids_unique (doc : node) : bool := nodup_strs (all_ids doc).
-
+(* ids: an id generated by docutils' set_id is not registered before; a node's preset ids are taken as they are
+   (all_ids, ids_unique: Doc/IdsProofs.v) *)
 Definition tok_math_label (content label : str) : tok :=
   Tok k_math_block_label v_mathtag [] content v_dd label [] (Some (1, 2)) [].
 
@@ -243,6 +232,20 @@ Theorem ids_unique_refuted :
 Proof.
   exists [tok_math_label [97] [108]; tok_math_label [98] [108]]. eexists. eexists.
   split; [vm_compute; reflexivity|]. split; vm_compute; reflexivity.
+Qed.
+
+(* GLOBAL: the ids of the rendered document are pairwise distinct, for every forest of the static grammar that
+   contains no node created with a preset id (preset_free: no equation label / numbered amsmath environment under
+   Sphinx).  The registry is used through its interface only (Api.api); the invariant is IdsProofs.ids_inv. *)
+Theorem ids_unique_global : forall B C OR ts doc ws,
+  static_forest B C OR ts = true -> forallb (preset_free B) ts = true ->
+  render_doc B C OR ts = Good (doc, ws) -> ids_unique doc = true.
+Proof.
+  intros B C OR ts doc ws Hst Hp H.
+  destruct (doc_obs (fun x => x) B C OR ts doc ws Hst H) as [Hn _].
+  destruct (render_doc_inv _ _ _ _ _ _ H) as [s [Hr ->]].
+  rewrite oids_decorate in Hn.
+  apply ids_unique_of_inv; [exact Hn|]. eapply render_ids_inv; eauto.
 Qed.
 
 Section SetId.
